@@ -101,7 +101,10 @@ type Path struct {
 
 	clockSec, clockNsec *Term // last clock reading (monotone clock model)
 	nextTag             string
+	blobs               []Iface // JSON identity codec snapshots
 	atomicDepth         int
+	preemptions         int
+	preemptBound        int
 
 	stack []string // call stack (function names) for diagnostics
 	gor   *sched   // goroutine scheduler (nil until first `go`)
